@@ -355,6 +355,46 @@ pub mod verif_hooks {
         pub fn get(&self, i: usize) -> (i64, i64, u32) {
             vt::table_get(&self.0, i)
         }
+        pub fn add_resolved(&mut self, first: i64, last: i64) {
+            vt::table_add(&mut self.0, vt::make_resolved_tablet(first, last))
+        }
+        pub fn flag(&self) -> bool {
+            vt::table_flag(&self.0)
+        }
+    }
+
+    /// All tables' tablets (`TabletsInfo`); tablets carry unresolved replicas iff `unresolved`.
+    pub struct TabletsOfTables(tablets::TabletsInfo);
+    impl TabletsOfTables {
+        #[allow(clippy::new_without_default)]
+        pub fn new() -> Self {
+            Self(vt::info_new())
+        }
+        pub fn add(&mut self, table: &str, first: i64, last: i64, unresolved: bool) {
+            let t = if unresolved {
+                vt::make_tablet(first, last, 0)
+            } else {
+                vt::make_resolved_tablet(first, last)
+            };
+            vt::info_add(&mut self.0, "k", table, t)
+        }
+        pub fn flag(&self) -> bool {
+            vt::info_flag(&self.0)
+        }
+        /// `(table flag, ranges)` of one table, if known.
+        pub fn table(&self, table: &str) -> Option<(bool, Vec<(i64, i64)>)> {
+            vt::info_table(&self.0, "k", table).map(|t| {
+                (
+                    vt::table_flag(t),
+                    (0..vt::table_len(t))
+                        .map(|i| {
+                            let (a, b, _) = vt::table_get(t, i);
+                            (a, b)
+                        })
+                        .collect(),
+                )
+            })
+        }
     }
 
     pub fn murmur3_state(h: &Murmur3PartitionerHasher) -> (usize, [u8; 16], i64, i64) {
